@@ -76,6 +76,16 @@ func init() {
 		},
 		Decode: func(b json.RawMessage) (any, error) { p := &CliPlan{}; return p, json.Unmarshal(b, p) },
 	})
+	register(srvFamily("C18", "c18-server", 3, GenC18Server, c18ServerOnline, c18ServerFinal,
+		func(w *SrvWorld, r *RunResult) { r.Nontrivial = c18ServerNontrivial(w) }))
+	register(srvFamily("C18", "c18-server-all", 1, GenC18ServerAll, c18ServerOnline, c18ServerFinal,
+		func(w *SrvWorld, r *RunResult) { r.Nontrivial = c18ServerNontrivial(w) }))
+	register(srvFamily("C18", "c18-server-own", 1, GenC18ServerOwn, c18ServerOnline, c18ServerFinal,
+		func(w *SrvWorld, r *RunResult) { r.Nontrivial = len(w.Frames) > 2 }))
+	register(cliFamily("C18", "c18-client", 2, GenC18Client, c18ClientOnline, c18ClientFinal,
+		func(w *CliWorld, r *RunResult) { r.Nontrivial = c18ClientNontrivial(w) }))
+	register(cliFamily("C18", "c18-client-bad", 1, GenC18ClientBad, c18ClientOnline, c18ClientFinal,
+		func(w *CliWorld, r *RunResult) { r.Nontrivial = len(w.Streams) > 0 }))
 	register(cliFamily("C07", "c07", 1, GenC07, c07Online, c07Final,
 		func(w *CliWorld, r *RunResult) { r.Nontrivial = c07Nontrivial(w) }))
 	register(cliFamily("C02", "c02-split", 1, GenC02Split, nil, func(w *CliWorld) *Violation { return c02Final(w, "C02") },
